@@ -117,7 +117,7 @@ func Show(doc *docSpec) string {
 		}
 	}
 	if err == nil {
-		for _, f := range compare(nullReporter{}, ref, obs, doc.desc()) {
+		for _, f := range judge(nullReporter{}, doc, ref, obs, doc.desc()) {
 			fmt.Fprintf(&sb, "FAIL clause=%s features=%s: %s\n", f.Clause, strings.Join(f.Features, ","), f.Detail)
 		}
 	}
